@@ -229,6 +229,8 @@ namespace sim
     std::uint64_t tot_armed[EV_NKINDS];
     std::uint64_t tot_fired[EV_NKINDS];
     std::uint64_t tot_events[EV_NKINDS];
+    std::uint64_t fired_by_op[64][EV_NKINDS]; // reach probe: faults that reached the caller, per op kind
+    std::uint64_t ops_by_kind[64];
 
     state (void)
       : in_op (false), armed (false), mask (0), countdown (-1), mask2 (0), j (-1), fired (0),
@@ -239,6 +241,12 @@ namespace sim
       fired_kind[0] = fired_kind[1] = -1;
       for (int i = 0; i < EV_NKINDS; ++i)
         ev_count[i] = tot_armed[i] = tot_fired[i] = tot_events[i] = 0;
+      for (int k = 0; k < 64; ++k)
+      {
+        ops_by_kind[k] = 0;
+        for (int i = 0; i < EV_NKINDS; ++i)
+          fired_by_op[k][i] = 0;
+      }
     }
   };
 
